@@ -39,6 +39,10 @@ CHECKS = {
          "exhaustive enumeration of the finite domain (exit codes x terminating signals x faults x child variants x 4 runner set-ups) on real runs, against the documented status table",
          "Every exit code (quick: 6 representatives, thorough: 0..255), every signal 1..64 whose default action terminates (self-raised with a raw kill and default disposition), five kernel-forced faults, SIGKILL from the host while the program runs, and main-process endings combined with a child that exits / is signalled before, while or after the main process ends, under the ptrace runner, the namespace runner, and a container with sync before and after exec; result status and exit value compared with the README table.",
          "The namespace runner's program is pid 1 of its pid namespace: the kernel discards default-disposition signals it raises itself, so for that runner the signal domain is faults + host SIGKILL. Stop signals and default-ignored signals are outside the property."),
+ "C10": ("model_checking",
+         "explicit-state model of the host/container RPC (9 actors, every hook point a labelled transition) searched exhaustively per script; every controllable schedule replayed on a real container through verif gates; the implementation's merged event log must be accepted by the model (subset simulation), each call must return its own answer and the environment must stay usable",
+         "Model: caller, two host pumps, two container pumps, server, wait goroutine, child, context; capacity-1 channels and socket queues explicit; messages tagged with the call that caused them. Invariants on every reachable state: a reply is consumed only by its own call, ok/kill are never dispatched as top-level commands and no command is swallowed inside an execve, no deadlock, quiescence at the end. Scripts: all single operations over a 17-operation alphabet (ping, open ok/item error/empty, delete error, symlink ok/error, reset, execve rejected before fork / empty args / failing before sync / callback failing / exec failing after sync / running; the same with sync after exec) x 4 schedules of a running execve (exit->result, cancel->kill, result held + cancel first, child ended but unreported + kill first), pairs (thorough: all pairs, triples over the execve family) and a usability suffix (ping + trivial execve). Each script's model is explored completely (states/transitions reported), then replayed on a real container; every hook event of both endpoints plus harness events (SYNCFUNC, CANCEL, RETURN) is fed to the acceptor. Oversized requests are a separate implementation-only family.",
+         "Gate granularity is the named point / protocol message; Go's random choice among simultaneously ready select cases is never exercised (exactly one case is made ready). The model is written from container/doc.go and the property, and is itself checked for its invariants before it judges the code. Open finding: requests above the 32 KiB frame make the environment unusable."),
  "C15": ("exploration",
          "bounded-exhaustive enumeration of hostile syscall arguments (one operation per run) and of SIGKILL instants at every tracer step, on a real tracer and tracee; oracle: the result is a verdict about the program, never Runner Error, and the run returns",
          "Every traced path syscall (25) x pointer kind for every path argument {NULL, unmapped, kernel half, odd, short string, 4095/4096/4097/8192 bytes without NUL, string ending exactly at / crossing into a PROT_NONE page} x dirfd encoding {AT_FDCWD, 64-bit garbage, (thorough) -1, closed, zero-extended AT_FDCWD} x {soft-ban-all, allow-all policy}; syscall numbers unknown / negative / x32 / above 2^32; unreadable, short and NULL open_how; and a fork+thread program in which the main process or the most recently reported task is SIGKILLed at the k-th tracer step for every k (each Debug call of the tracer loop, including 'before PTRACE_SETOPTIONS' and 'between trap and skip').",
@@ -84,6 +88,8 @@ def main():
             "add_only": True,
         },
         "engines": [
+            {"name": "rpcmodel+gate", "path": "/verif/rpcmodel", "serves_properties": ["C10", "C11", "C16"],
+             "kind_free_text": "explicit-state model of the container RPC (breadth-first search over all interleavings, invariants, subset-simulation trace acceptor) and the gate controller for the verif-tagged named points (hold / release / wait-for on both endpoints)"},
             {"name": "mc", "path": "/verif/mc", "serves_properties": sorted(CHECKS.keys()),
              "kind_free_text": "hand-written stateless explorer: Choose-based depth-first enumeration of all choice vectors (optional deviation bound), sharded over worker processes, 5x re-run of failing vectors, known-findings classification, evidence writer"},
         ],
@@ -105,6 +111,6 @@ def main():
         print("valid", os.path.basename(p))
     print("MANIFEST ok: %d checks, %d not_applicable" % (len(checks), len(na)))
 
-HOOK_COMMITS = []
+HOOK_COMMITS = ["80feaaa"]
 if __name__ == "__main__":
     main()
